@@ -18,6 +18,15 @@ the public operations, read off the ast of /repo/jsonargparse/_core.py.
     configuration — a spec that is the value itself, an element of a list, a value of a dict — otherwise
     instantiation falls back to the ONE live default object of the signature.  Probed on the live code with a
     probe class in a temp module: one row (position, expanded) per position.
+(4) `strip_meta` of an EMPTY configuration: a copy (fix 3b44d63) or the object itself — probed, consumed by the
+    model as `Policy.stripEmpty`.
+(5) entry-point probes: every public entry point that takes a caller-owned object is CALLED on the live code (child
+    process) with an argument whose nested containers would have to be rewritten (string elements where ints are
+    expected, Enum members to serialise, a tuple holding a list): one row (site, verdict), verdict = "unchanged"
+    (value, types and identities of all nested containers as before, and no list/dict/Namespace of the argument is
+    part of the result) | "CHANGED" | "shared-result"; for set_defaults / add_argument(default=) "kept" (the parser keeps
+    the caller's very object as action.default — argparse semantics) | "copied".  A site that cannot be probed
+    (the call raises, the API is gone) is reported as a problem = broken tie.
 """
 from __future__ import annotations
 
@@ -311,10 +320,178 @@ def probe_sub_defaults(problems):
     return [("spec", False), ("list", False), ("dict", False), ("instantiated-fresh", False)]
 
 
+ENTRY_SCRIPT = r'''
+import collections, enum, json, os, sys, tempfile
+from typing import Dict, List, Tuple
+from jsonargparse import ArgumentParser, Namespace, ActionConfigFile, auto_cli
+from jsonargparse._namespace import strip_meta
+
+class Color(enum.Enum):
+    red = 1
+    green = 2
+
+class Grp:
+    def __init__(self, n: int = 1, ms: List[int] = [1]):
+        self.n = n
+
+def containers(x, acc, seen):
+    if id(x) in seen:
+        return
+    if isinstance(x, Namespace):
+        seen.add(id(x)); acc.append(x)
+        for v in vars(x).values(): containers(v, acc, seen)
+    elif isinstance(x, dict):
+        seen.add(id(x)); acc.append(x)
+        for v in x.values(): containers(v, acc, seen)
+    elif isinstance(x, (list, tuple)):
+        seen.add(id(x)); acc.append(x)
+        for v in x: containers(v, acc, seen)
+
+def snap(x):
+    if isinstance(x, Namespace):
+        return ("ns", id(x), [(k, snap(v)) for k, v in vars(x).items()])
+    if isinstance(x, dict):
+        return (type(x).__name__, id(x), [(k, snap(v)) for k, v in x.items()])
+    if isinstance(x, (list, tuple)):
+        return (type(x).__name__, id(x), [snap(v) for v in x])
+    return (type(x).__name__, repr(x))
+
+def writable_shared(arg, res):
+    a, r = [], []
+    containers(arg, a, set()); containers(res, r, set())
+    ids = {id(o) for o in a if isinstance(o, (list, dict, Namespace))}
+    return any(id(o) in ids for o in r)
+
+def mk():
+    p = ArgumentParser(exit_on_error=False, env_prefix="PRB", default_env=False)
+    p.add_argument("--cfg", action=ActionConfigFile)
+    p.add_argument("--xs", type=List[List[int]], default=[[0]])
+    p.add_argument("--d", type=Dict[str, List[int]], default={"k": [0]})
+    p.add_argument("--t", type=Tuple[int, List[Color]], default=(0, [Color.green]))
+    p.add_argument("--g.n", type=List[int], default=[5])
+    return p
+
+def raw():
+    return Namespace(xs=[["1"], ["2", "3"]], d={"a": ["4"]}, t=(1, [Color.red]), g=Namespace(n=["6"]))
+
+def raw_dict():
+    return {"xs": [["1"], ["2", "3"]], "d": {"a": ["4"]}, "t": [1, ["red"]], "g": {"n": ["6"]}}
+
+rows = []
+def probe(site, build, call, result_matters=True):
+    try:
+        p = mk()
+        arg = build(p)
+        keep = [arg]
+        before = snap(arg)
+        res = call(p, arg)
+        if snap(arg) != before:
+            rows.append([site, "CHANGED"])
+        elif result_matters and writable_shared(arg, res):
+            rows.append([site, "shared-result"])
+        else:
+            rows.append([site, "unchanged"])
+    except BaseException as ex:
+        rows.append([site, "unprobed:" + type(ex).__name__ + ":" + str(ex)[:120]])
+
+tmp = tempfile.mkdtemp(prefix="c08entry_")
+probe("dump.cfg", lambda p: raw(), lambda p, a: p.dump(a), False)
+probe("validate.cfg", lambda p: raw(), lambda p, a: p.validate(a), False)
+probe("validate.branch", lambda p: Namespace(n=["6"]), lambda p, a: p.validate(a, branch="g"), False)
+probe("merge_config.cfg_from", lambda p: raw(), lambda p, a: p.merge_config(a, p.get_defaults()))
+probe("merge_config.cfg_to", lambda p: raw(), lambda p, a: p.merge_config(Namespace(xs=[["9"]]), a))
+def with_unknown():
+    c = raw(); c["zz"] = [1]; return c
+probe("strip_unknown.cfg", lambda p: with_unknown(), lambda p, a: p.strip_unknown(a))
+probe("instantiate_classes.cfg", lambda p: raw(), lambda p, a: p.instantiate_classes(a))
+def inst_empty(p, a):
+    p.add_class_arguments(Grp, "grp")
+    return p.instantiate_classes(a)
+probe("instantiate_classes.empty", lambda p: Namespace(), inst_empty)
+probe("strip_meta.empty", lambda p: Namespace(), lambda p, a: [strip_meta(a)])
+probe("parse_object.cfg_obj.dict", lambda p: raw_dict(), lambda p, a: p.parse_object(a))
+probe("parse_object.cfg_obj.namespace", lambda p: raw(), lambda p, a: p.parse_object(a))
+probe("parse_object.cfg_base", lambda p: raw(), lambda p, a: p.parse_object({"xs": [["7"]]}, cfg_base=a))
+probe("parse_args.namespace", lambda p: raw(), lambda p, a: p.parse_args(["--xs=[[8]]"], namespace=a))
+probe("parse_args.namespace.nodefaults", lambda p: raw(), lambda p, a: p.parse_args(["--xs=[[8]]"], namespace=a, defaults=False))
+probe("parse_object.cfg_base.nodefaults", lambda p: raw(), lambda p, a: p.parse_object({"xs": [["7"]]}, cfg_base=a, defaults=False))
+probe("parse_args.args", lambda p: ["--xs", "[[8]]", "--d", "{\"a\": [1]}", "--g.n+=7"], lambda p, a: p.parse_args(a))
+probe("parse_env.env", lambda p: {"PRB_XS": "[[1]]", "PRB_D": "{\"a\": [2]}"}, lambda p, a: p.parse_env(a))
+probe("save.cfg.single", lambda p: raw(), lambda p, a: p.save(a, os.path.join(tmp, "s.yaml"), multifile=False, overwrite=True), False)
+probe("save.cfg.multi", lambda p: raw(), lambda p, a: p.save(a, os.path.join(tmp, "m.yaml"), multifile=True, overwrite=True), False)
+def gd(p, a):
+    p.set_defaults(xs=a)
+    out = p.get_defaults()
+    out.xs[0].append(99)          # what the caller does with the namespace handed out must not reach the declared default
+    p.parse_args(["--xs+=[5]"])
+    return out
+probe("get_defaults.default", lambda p: [["1"], ["2"]], gd)
+def fn(a: int = 1, b: List[int] = [1]):
+    return (a, b)
+probe("auto_cli.args", lambda p: ["--a=2", "--b=[3]"], lambda p, a: [auto_cli(fn, args=a)])
+# kept or copied: the declared default after set_defaults / add_argument(default=)
+try:
+    p = mk(); v = [["1"]]; p.set_defaults({"xs": v})
+    act = [a for a in p._actions if a.dest == "xs"][0]
+    rows.append(["set_defaults.value", "kept" if act.default is v else "copied"])
+except BaseException as ex:
+    rows.append(["set_defaults.value", "unprobed:" + type(ex).__name__])
+try:
+    p = ArgumentParser(exit_on_error=False); v = [["1"]]
+    act = p.add_argument("--m", type=List[List[int]], default=v)
+    rows.append(["add_argument.default", "kept" if act.default is v else "copied"])
+except BaseException as ex:
+    rows.append(["add_argument.default", "unprobed:" + type(ex).__name__])
+import shutil; shutil.rmtree(tmp, ignore_errors=True)
+print("ENTRY " + json.dumps(rows))
+'''
+
+ENTRY_SITES = ["dump.cfg", "validate.cfg", "validate.branch", "merge_config.cfg_from", "merge_config.cfg_to", "strip_unknown.cfg",
+               "instantiate_classes.cfg", "instantiate_classes.empty", "strip_meta.empty", "parse_object.cfg_obj.dict",
+               "parse_object.cfg_obj.namespace", "parse_object.cfg_base", "parse_args.namespace", "parse_args.namespace.nodefaults", "parse_object.cfg_base.nodefaults", "parse_args.args", "parse_env.env",
+               "save.cfg.single", "save.cfg.multi", "get_defaults.default", "auto_cli.args", "set_defaults.value", "add_argument.default"]
+
+
+def probe_entry_points(problems):
+    """[(site, verdict)] from calling every public entry point on the live code, in a child process"""
+    import json
+    import shutil
+    import subprocess
+    import tempfile
+
+    d = tempfile.mkdtemp(prefix="c08entry_")
+    rows = None
+    try:
+        with open(os.path.join(d, "run_entry.py"), "w") as f:
+            f.write(ENTRY_SCRIPT)
+        env = dict(os.environ, PYTHONPATH=REPO)
+        pr = subprocess.run(["/venv/bin/python", os.path.join(d, "run_entry.py")], cwd=d, env=env, stdout=subprocess.PIPE, stderr=subprocess.STDOUT, text=True, timeout=120)
+        for line in pr.stdout.split("\n"):
+            if line.startswith("ENTRY "):
+                rows = [(k, str(v)) for k, v in json.loads(line[6:])]
+        if rows is None:
+            problems.append("HeapSites: entry-point probe failed: %s" % pr.stdout[-400:])
+    except Exception as ex:  # noqa: BLE001
+        problems.append("HeapSites: entry-point probe failed: %r" % (ex,))
+    finally:
+        shutil.rmtree(d, ignore_errors=True)
+    got = dict(rows or [])
+    out = []
+    for site in ENTRY_SITES:
+        v = got.get(site, "unprobed:missing")
+        if v.startswith("unprobed"):
+            problems.append("HeapSites: entry point %s cannot be probed (%s)" % (site, v))
+            v = "unprobed"
+        out.append((site, v))
+    return out
+
+
 def generate(problems):
     kinds = probe_kinds(problems)
     sites = copy_sites(problems)
     subs = probe_sub_defaults(problems)
+    entry = probe_entry_points(problems)
+    strip_empty = dict(entry).get("strip_meta.empty") == "unchanged"
     b = lambda x: "true" if x else "false"  # noqa: E731
     body = "namespace Jap.Gen.HeapSites\n"
     body += "/-- (kind, recreate_branches gives a fresh object and recurses, the adapter writes elements back into the object it was given) -/\n"
@@ -323,5 +500,9 @@ def generate(problems):
     body += "def copySites : List (String × Bool) := [%s]\n" % ", ".join("(%s, %s)" % (lean_str(k), b(v)) for k, v in sites)
     body += "/-- (position of a class spec, add_sub_defaults expands the lazy_instance signature default into init_args there) -/\n"
     body += "def subDefaults : List (String × Bool) := [%s]\n" % ", ".join("(%s, %s)" % (lean_str(k), b(v)) for k, v in subs)
+    body += "/-- `strip_meta(Namespace())` is a new object (probed) -/\n"
+    body += "def stripMetaCopiesEmpty : Bool := %s\n" % b(strip_empty)
+    body += "/-- (entry point . argument, what calling it on the live code did to the argument: unchanged | CHANGED | shared-result | kept | copied | unprobed) -/\n"
+    body += "def entryProbes : List (String × String) := [%s]\n" % ", ".join("(%s, %s)" % (lean_str(k), lean_str(v)) for k, v in entry)
     body += "end Jap.Gen.HeapSites\n"
     write_if_changed("HeapSites.lean", body)
